@@ -13,10 +13,12 @@ EXTENDS WalletSend, TLC
 VARIABLES p, s, hist
 vars == <<p, s, hist>>
 
-Params   == ndJsonDeserialize("params.ndjson")[1]     \* {"seeds":[hex32,..],"wcs":[0,-1,..],"maxpolls":6,"rot":0}
+Params   == ndJsonDeserialize("params.ndjson")[1]     \* {"seeds":[hex32,..],"wcs":[0,-1,..],"maxpolls":6,"rawmaxpolls":6,"rawseqs":["0",..],"rot":0}
 MaxPolls == Params.maxpolls
+RawMaxPolls == Params.rawmaxpolls                       \* bound for the entry points that take seqno / init from the caller
 Seeds    == Params.seeds
 Wcs      == Params.wcs
+RawSeqs  == {Params.rawseqs[i] : i \in 1..Len(Params.rawseqs)}   \* seqnos a caller passes to RawSend(V2) (subset of SeqSet)
 Rot      == Params.rot                                   \* rotates which key / workchain a (version, entry) pair gets
 
 SeqSet    == {"0", "1", "7", "4294967295"}
@@ -28,7 +30,7 @@ Entries  == <<[e |-> "SendV2", c |-> TRUE], [e |-> "SendV2", c |-> FALSE], [e |-
 ParamSpace ==
   UNION {UNION {{[ver |-> v, entry |-> Entries[i].e, confirm |-> Entries[i].c, rawseq |-> rs, rawinit |-> ri,
                   wc |-> Wcs[((VerIdx(v) + i + Rot) % Len(Wcs)) + 1], seed |-> Seeds[((VerIdx(v) + 2 * i + Rot) % Len(Seeds)) + 1]]
-                 : rs \in (IF Entries[i].e \in RawEntries THEN SeqSet ELSE {""}),
+                 : rs \in (IF Entries[i].e \in RawEntries THEN RawSeqs ELSE {""}),
                    ri \in (IF Entries[i].e \in RawEntries THEN BOOLEAN ELSE {FALSE})}
                 : i \in 1..Len(Entries)} : v \in SendVersions}
 
@@ -42,8 +44,8 @@ BuildEv == IF p.entry \in RawEntries THEN [k |-> "Build", seq |-> SeqOr(p.ver, p
            ELSE IF s.st = "active" THEN [k |-> "Build", seq |-> SeqOr(p.ver, s.n), init |-> FALSE, free |-> FALSE]
            ELSE [k |-> "Build", seq |-> SeqOr(p.ver, "0"), init |-> TRUE, free |-> s.st = "frozen"]
 SendEv(r) == [k |-> "Send", srcNone |-> TRUE, destOK |-> TRUE, seq |-> s.seq, init |-> s.init, initOK |-> TRUE, r |-> r]
-PollEvs == {[k |-> "Poll", r |-> "err", v |-> ""], [k |-> "Poll", r |-> "val", v |-> s.seq]}
-           \cup (IF SuccOf(s.seq) # "" THEN {[k |-> "Poll", r |-> "val", v |-> SuccOf(s.seq)]} ELSE {})
+PollEvs == {[k |-> "Poll", r |-> "err", v |-> "", own |-> TRUE], [k |-> "Poll", r |-> "val", v |-> s.seq, own |-> TRUE]}
+           \cup (IF SuccOf(s.seq) # "" THEN {[k |-> "Poll", r |-> "val", v |-> SuccOf(s.seq), own |-> TRUE]} ELSE {})
 ReturnRes == CASE s.pc = "got" -> "err"
                [] s.pc = "failed" -> "err"
                [] s.pc = "sent" -> IF ~p.confirm THEN "ok" ELSE IF ~ConfirmSupported(p.ver) THEN "err"
@@ -54,10 +56,10 @@ Do(e) == s' = Step(p, s, e) /\ hist' = Append(hist, e) /\ p' = p
 
 Init == p \in ParamSpace /\ s = S0 /\ hist = <<>>
 Next ==
-  \/ s.pc = "start" /\ p.entry \in StateEntries /\ \E a \in AcctStates : Do([k |-> "GetState", st |-> a.st, n |-> a.n, ext |-> a.ext])
+  \/ s.pc = "start" /\ p.entry \in StateEntries /\ \E a \in AcctStates : Do([k |-> "GetState", st |-> a.st, n |-> a.n, ext |-> a.ext, own |-> TRUE])
   \/ ((s.pc = "start" /\ p.entry \in RawEntries) \/ (s.pc = "got" /\ s.st # "err")) /\ Do(BuildEv)
   \/ s.pc = "built" /\ \E r \in {"ok", "err"} : Do(SendEv(r))
-  \/ Polling /\ s.polls < MaxPolls /\ \E e \in PollEvs : Do(e)
+  \/ Polling /\ s.polls < (IF p.entry \in RawEntries THEN RawMaxPolls ELSE MaxPolls) /\ \E e \in PollEvs : Do(e)
   \/ Polling /\ Do([k |-> "Deadline"])
   \/ ((s.pc = "got" /\ s.st = "err") \/ s.pc = "failed" \/ (s.pc = "sent" /\ ~Polling)) /\ Do([k |-> "Return", res |-> ReturnRes])
 Spec == Init /\ [][Next]_vars
